@@ -48,6 +48,14 @@ struct Case {
     phi: f64,
     meta: Meta,
     signer_pick: u16,
+    /// rejected registration attempts (an already registered key offered again, with the same or another stake)
+    /// interleaved with the arrivals of path (a): (after how many arrivals, which registered party, stake delta)
+    #[serde(default)]
+    dup_attempts: Vec<(u16, u16, u8)>,
+    /// one more claimant: the party picked by .1 (not in the set) certifies the KEY of the set member picked by .0 with
+    /// its own KES key and operational certificate, with the stake .2 - a second pool claiming a registered key
+    #[serde(default)]
+    claimant: Option<(u16, u16, u64)>,
 }
 
 fn fixture() -> &'static MithrilFixture {
@@ -95,6 +103,46 @@ fn path_a(signers: &[SignerWithStake], params: &Parameters) -> Result<(Value, BT
     Ok((avk_view(concat), slots, concat.get_total_stake()))
 }
 
+/// path (a) with rejected attempts in the arrival history: the set of registered pairs is the same
+fn path_a_with_attempts(signers: &[SignerWithStake], attempts: &[(u16, u16, u8)], params: &Parameters) -> Result<(Value, u64, usize), String> {
+    let mut reg = KeyRegistration::initialize();
+    let mut rejected = 0;
+    for (i, s) in signers.iter().enumerate() {
+        reg.register(s.stake, &s.verification_key_for_concatenation).map_err(|e| format!("register: {e:#}"))?;
+        for (after, who, delta) in attempts {
+            if pick_index(*after, signers.len()) == i {
+                let again = &signers[pick_index(*who, i + 1)];
+                match reg.register(again.stake.saturating_add(*delta as u64), &again.verification_key_for_concatenation) {
+                    Err(_) => rejected += 1,
+                    Ok(_) => return Err(format!("a key that is already registered was registered again (stake +{delta})")),
+                }
+            }
+        }
+    }
+    let closed = reg.close_registration(params).map_err(|e| format!("close: {e:#}"))?;
+    let clerk: Clerk<D> = Clerk::new_clerk_from_closed_key_registration(params, &closed);
+    let avk = clerk.compute_aggregate_verification_key();
+    let concat = avk.to_concatenation_aggregate_verification_key();
+    Ok((avk_view(concat), concat.get_total_stake(), rejected))
+}
+
+/// a second pool claiming the key of `owner`: `claimer`'s identity (party id, operational certificate, KES key) with a
+/// KES signature of its own over the owner's verification key + proof of possession
+fn claim_key(owner: &SignerWithStake, claimer_party: &str, stake: u64) -> Option<SignerWithStake> {
+    use mithril_common::crypto_helper::{KesPeriod, KesSigner, KesSignerStandard};
+    let fx = fixture();
+    let cf = fx.signers_fixture().into_iter().find(|s| s.signer_with_stake.party_id == claimer_party)?;
+    let kes_sk = cf.kes_secret_key_path.clone()?;
+    let opcert_path = cf.operational_certificate_path.clone()?;
+    let signer = KesSignerStandard::new(kes_sk, opcert_path);
+    let (sig, _) = signer.sign(&owner.verification_key_for_concatenation.to_bytes(), KesPeriod(0)).ok()?;
+    let mut s = cf.signer_with_stake.clone();
+    s.verification_key_for_concatenation = owner.verification_key_for_concatenation;
+    s.verification_key_signature_for_concatenation = Some(sig.into());
+    s.stake = stake;
+    Some(s)
+}
+
 fn roundtrip_signers(signers: &[SignerWithStake]) -> Result<Vec<SignerWithStake>, String> {
     let parts = SignerWithStakeMessagePart::from_signers(signers.to_vec());
     let txt = serde_json::to_string(&parts).map_err(|e| e.to_string())?;
@@ -129,7 +177,15 @@ fn path_c(signers: &[SignerWithStake], pp: &ProtocolParameters) -> Result<Value,
     Ok(avk_view(&key))
 }
 
+thread_local! {
+    static CLAIM_SEEN: std::cell::Cell<bool> = const { std::cell::Cell::new(false) };
+}
+fn return_label_claim() {
+    CLAIM_SEEN.with(|c| c.set(true));
+}
+
 fn case_fn(c: &Case) -> Report {
+    CLAIM_SEEN.with(|c| c.set(false));
     let mut rep = Report::new();
     let fx = fixture();
     let all = fx.signers_with_stake();
@@ -137,12 +193,16 @@ fn case_fn(c: &Case) -> Report {
     for (i, s) in all.iter().enumerate() {
         if c.mask >> i & 1 == 1 {
             let mut s = s.clone();
-            s.stake = c.stakes.get(i).copied().unwrap_or(1).max(1);
+            s.stake = c.stakes.get(i).copied().unwrap_or(1);
             base.push(s);
         }
     }
     if base.is_empty() {
         base.push(all[0].clone());
+    }
+    // (the protocol cannot run with a total stake of zero: documented precondition of close_registration)
+    if base.iter().all(|s| s.stake == 0) {
+        base[0].stake = 1;
     }
     let n = base.len();
     let params = Parameters { m: c.m, k: c.k.min(c.m).max(1), phi_f: c.phi };
@@ -178,6 +238,38 @@ fn case_fn(c: &Case) -> Report {
         }
         if slots_a != slots_ref {
             return Err(fail("order-dependent:slots", format!("signer slots differ between two registration orders: {slots_ref:?} vs {slots_a:?}")));
+        }
+        // (a) with rejected attempts interleaved: same set of registered pairs, same key and total
+        if !c.dup_attempts.is_empty() {
+            let (avk_d, total_d, rejected) = path_a_with_attempts(&order_a, &c.dup_attempts, &params).map_err(|e| fail("duplicate-key-registered", format!("(a) with attempts: {e}")))?;
+            if rejected > 0 && (avk_d != avk_ref || total_d != sum) {
+                return Err(fail("history-dependent:rejected-attempts", format!("{rejected} rejected registration attempt(s) changed the result: total stake {total_d} (sum of registered stakes {sum}), key {avk_d} vs {avk_ref}")));
+            }
+        }
+        // a second pool claiming a registered key: whatever the node path does with it (the unchanged code refuses the
+        // whole list), it does the same in every order
+        if let Some((owner, claimer, stake)) = &c.claimant {
+            let owner = &base[pick_index(*owner, n)];
+            let outsiders: Vec<&SignerWithStake> = all.iter().filter(|s| !base.iter().any(|b| b.party_id == s.party_id)).collect();
+            if !outsiders.is_empty() {
+                let claimer = outsiders[pick_index(*claimer, outsiders.len())];
+                if let Some(second) = claim_key(owner, &claimer.party_id, *stake) {
+                    let mut first = base.clone();
+                    first.push(second.clone());
+                    let mut outcomes = vec![];
+                    for order in [first.clone(), { let mut v = vec![second.clone()]; v.extend(base.clone()); v }, permute(&first, &c.perm_a), permute(&first, &c.perm_b)] {
+                        outcomes.push(match path_b(&order, &pp) {
+                            Ok((avk, _)) => format!("{avk}"),
+                            Err(_) => "refused".to_string(),
+                        });
+                    }
+                    if outcomes.iter().any(|o| o != &outcomes[0]) {
+                        let kinds: Vec<&str> = outcomes.iter().map(|o| if o == "refused" { "refused" } else { "key" }).collect();
+                        return Err(fail("order-dependent:key-claimed-twice", format!("a list in which {} also claims the key of {} gives different results in different orders: {kinds:?} ({} distinct)", second.party_id, owner.party_id, outcomes.iter().collect::<std::collections::BTreeSet<_>>().len())));
+                    }
+                    return_label_claim();
+                }
+            }
         }
         // (b) node path on JSON round-tripped signers
         let rt = roundtrip_signers(&order_b).map_err(|e| fail("path-failed", format!("signer list round trip: {e}")))?;
@@ -275,7 +367,7 @@ fn case_fn(c: &Case) -> Report {
                 }
             }
         };
-        if applicable {
+        if applicable && other.iter().any(|s| s.stake > 0) {
             let (avk_o, _, _) = path_a(&other, &params).map_err(|e| fail("path-failed", format!("(a) distinct set: {e}")))?;
             if avk_o == avk_ref {
                 return Err(fail("distinct-sets-same-key", format!("registration sets differing by {:?} yield the same aggregate key", c.meta)));
@@ -296,6 +388,15 @@ fn case_fn(c: &Case) -> Report {
         }
         Ok(Ok(())) => {}
     }
+    if CLAIM_SEEN.with(|c| c.get()) {
+        rep.label("key-claimed-twice");
+    }
+    if !c.dup_attempts.is_empty() {
+        rep.label("rejected-attempts");
+    }
+    if base.iter().any(|s| s.stake == 0) {
+        rep.label("zero-stake-party");
+    }
     let identity = c.perm_a.is_empty() && c.perm_b.is_empty() && c.perm_c.is_empty();
     rep.label(format!("meta:{}", format!("{:?}", c.meta).split('(').next().unwrap_or("")));
     if n >= 2 && !identity {
@@ -307,6 +408,7 @@ fn case_fn(c: &Case) -> Report {
 
 fn strategy() -> impl Strategy<Value = Case> {
     let stake = prop_oneof![
+        1 => Just(0u64),
         3 => 1u64..1000,
         2 => prop::sample::select(vec![1u64, 2, 7, 7, 100, 100, 1_000_000]),
         1 => 1u64..(1u64 << 50),
@@ -323,8 +425,9 @@ fn strategy() -> impl Strategy<Value = Case> {
         prop_oneof![Just(0.2f64), Just(1.0f64), 0.01f64..1.0],
         prop_oneof![Just(Meta::None), r.prop_map(Meta::Remove), r.prop_map(Meta::StakePlus), r.prop_map(Meta::StakeMinus), (r, r).prop_map(|(a, b)| Meta::SwapStakes(a, b))],
         r,
+        (prop::collection::vec((r, r, 0u8..=3), 0..4), prop::option::weighted(0.4, (r, r, 1u64..2000))),
     )
-        .prop_map(|(mask, stakes, perm_a, perm_b, perm_c, m, k, phi, meta, signer_pick)| Case { mask, stakes, perm_a, perm_b, perm_c, m, k, phi, meta, signer_pick })
+        .prop_map(|(mask, stakes, perm_a, perm_b, perm_c, m, k, phi, meta, signer_pick, (dup_attempts, claimant))| Case { mask, stakes, perm_a, perm_b, perm_c, m, k, phi, meta, signer_pick, dup_attempts, claimant })
 }
 
 pub fn run(args: &Args) -> i32 {
@@ -336,7 +439,10 @@ pub fn run(args: &Args) -> i32 {
         .require_label("permuted")
         .require_label("equal-stakes")
         .require_label("meta:Remove")
-        .require_label("meta:SwapStakes");
+        .require_label("meta:SwapStakes")
+        .require_label("rejected-attempts")
+        .require_label("key-claimed-twice")
+        .require_label("zero-stake-party");
     let t = check.tier;
     check.shrink_iters(200);
     // build the fixture before the workers start (it writes KES material under TMPDIR)
